@@ -1,7 +1,7 @@
 #!/usr/bin/env python3
 """Regression harness for rule changes (development tool): every seeded change must still be reported by its own
 property's check, every behaviour-preserving refactor must stay silent.
-Usage: regress.py [--bin /verif/bin/coapcheck] [--seeds dir,dir] [--benign dir] [--all-props]
+Usage: regress.py [--bin /verif/bin/coapcheck] [--seeds dir,dir] [--benign dir] [--all-props] [--only Cxx,Cyy] [--props Cxx,Cyy]
   seeds dirs contain <id>/patch.diff (+meta.json with "property") or Cxx/<variant>/patch.diff"""
 import json, os, re, shutil, subprocess, sys, glob, tempfile
 from concurrent.futures import ThreadPoolExecutor
@@ -46,10 +46,15 @@ def main():
         for pf in sorted(glob.glob(os.path.join(benign, "C[0-9][0-9]-[R-Z]*", "patch.diff"))):
             d = os.path.dirname(pf)
             jobs.append(("benign", d[len(benign) + 1:], pf, os.path.basename(d)[:3]))
+    if "--only" in a:  # --only C04,C07: restrict to the corpora of these properties
+        keep = set(a[a.index("--only") + 1].split(","))
+        jobs = [j for j in jobs if j[3] in keep]
     missed, alarms, nb, ns = [], [], 0, 0
     def work(j):
         kind, name, pf, prop = j
         props = PROPS if (allp and kind == "benign") else [prop]
+        if "--props" in a and kind == "benign":  # --props C06,C11: run only these checks on the edits
+            props = a[a.index("--props") + 1].split(",")
         return j, run(binp, pf, props)
     with ThreadPoolExecutor(max_workers=12) as ex:
         for j, (res, err) in ex.map(work, jobs):
